@@ -142,6 +142,30 @@ fn main() {
                 println!("{:6} {}\n        e.g. {}", c, k, ex);
             }
         }
+        Some("script") => {
+            // type the lines of a file at the prompt and print every event (debugging aid)
+            let file = args.get(2).cloned().unwrap_or_else(|| usage());
+            let q: u32 = args.get(3).and_then(|s| s.parse().ok()).unwrap_or(5000);
+            let text = std::fs::read_to_string(&file).unwrap_or_default();
+            let mut w = world::World::booted(world::Sched::fixed(q), 1, true);
+            for l in text.lines() {
+                let (line, replies) = match l.split_once(" <<< ") {
+                    Some((a, b)) => (a, b.split('|').map(|s| s.to_string()).collect::<Vec<_>>()),
+                    None => (l, vec![]),
+                };
+                let io = world::LineIo {
+                    replies,
+                    ..Default::default()
+                };
+                let o = w.line(line, &io);
+                for e in &w.events[o.ev_start..o.ev_end] {
+                    println!("{:?}", e);
+                }
+            }
+            if let Some(f) = &w.fatal {
+                println!("FATAL {} {}", f.tag, f.detail);
+            }
+        }
         Some("demo") => {
             let seed: u64 = args.get(2).and_then(|s| s.parse().ok()).unwrap_or(1);
             demo(seed);
